@@ -203,6 +203,8 @@ def run(ctx: Ctx):
             why = " (range)" if ev.get("in_range") == 0 else " (derivation)" if ev.get("derived_ok") == 0 else " (uniform differs from the one seen at the same generator coordinate)"
         ctx.violation(f"trace|{ev.get('a')}|{ev.get('kind', '')}{why}", f"recorded history {rj.index}: events 1..{rj.upto} are a behaviour of Streams.tla, "
                       f"event {rj.upto + 1} {ev} is not{why}", {"trace": rj.trace, "explained": rj.upto})
+    if ctx.violations:
+        return
     # self-test
     bad = []
     rejected = {r_.index for r_ in rej}
